@@ -10,6 +10,7 @@ the fluent API with str / ast / callable lambdas and QMetaData in between) and r
 import ast
 import copy
 import importlib.util
+import hashlib
 import json
 import os
 import subprocess
@@ -88,6 +89,35 @@ for line in sys.stdin:
     r = json.loads(line)
     print(json.dumps({"id": r["id"], "h": calc_ast_hash(ast.parse(r["src"]).body[0].value)}))
 """
+
+
+def boundary_offsets(tier):
+    offs = set()
+    for blk in (512, 1024, 2048, 4096, 8192, 16384, 32768, 65536):
+        m = 1
+        while blk * m <= 70000 and m <= (12 if tier == "quick" else 140):
+            for dlt in (-2, -1, 0, 1, 2):
+                offs.add(blk * m + dlt + (m - 1))      # also the drift of an off-by-one per block
+                offs.add(blk * m + dlt)
+            m += 1
+    return sorted(o for o in offs if 300 < o < 70000)
+
+
+def boundary_pair(off):
+    """two queries whose dumps differ in exactly one character, at offset `off` (0-based) of ast.dump"""
+    def build(pad, digit):
+        return ast.parse(f"Select(ds, lambda e: (e.f('{'x' * pad}'), {digit}2345, e.g('tail')))").body[0].value
+    probe = ast.dump(build(0, 1))
+    at0 = probe.index("12345")
+    pad = off - at0
+    if pad < 0:
+        return None
+    a, b = build(pad, 1), build(pad, 2)
+    da, db = ast.dump(a), ast.dump(b)
+    diff = [i for i in range(len(da)) if da[i] != db[i]]
+    if len(da) != len(db) or diff != [off]:
+        raise common.MachineryError(f"boundary pair construction failed for offset {off}: {diff[:3]}")
+    return a, b
 
 
 async def _ret(log, a):
@@ -220,12 +250,29 @@ def run(prop, tier):
             table.append({"id": len(table) + 1, "t": r["in"], "h": r["h"], "route": "wild (repository tests)", "case": -1})
             nw += 1
     fams["wild (repository tests under the recorder)"] = {"hash_calls": nw, "suite": wild.suite_summary()}
+    # large queries: one differing character placed at chosen offsets of the node dump (block / buffer boundaries of
+    # whatever feeds the digest); the structure key of these rows is a digest of the dump (the terms are 10-70 kB)
+    nb = 0
+    for off in boundary_offsets(tier):
+        pair = boundary_pair(off)
+        if pair is None:
+            continue
+        for node in pair:
+            dump = ast.dump(node)
+            table.append({"id": len(table) + 1, "t": codec.T("opaque", s="large query"), "h": calc_ast_hash(node),
+                          "tk": "sha256:" + hashlib.sha256(dump.encode("utf-8", "surrogatepass")).hexdigest(),
+                          "route": f"large query, differing character at dump offset {off}", "case": -2})
+        nb += 1
+    fams["boundary"] = {"pairs": nb, "what": "two queries that differ in one digit of a constant located at a chosen "
+                        "offset of ast.dump (multiples of 512 .. 65536 and their neighbours, up to 70000)"}
+    for r in table:
+        if "tk" not in r:
+            r["tk"] = json.dumps(r["t"], separators=(",", ":"), sort_keys=True)
     # TLC decides
     d = tlcrun.fresh_dir(common.outdir(prop, "val"))
     inf = os.path.join(d, "table.ndjson")
     # tk: canonical text of the term - atomic for TLC (deep record comparison made the set construction quadratic)
-    codec.write_ndjson(inf, [{"id": r["id"], "tk": json.dumps(r["t"], separators=(",", ":"), sort_keys=True),
-                              "h": r["h"]} for r in table])
+    codec.write_ndjson(inf, [{"id": r["id"], "tk": r["tk"], "h": r["h"]} for r in table])
     cfg = os.path.join(d, "trace.cfg")
     tlcrun.write_cfg(cfg)
     outf = os.path.join(d, "verdict.ndjson")
@@ -244,7 +291,7 @@ def run(prop, tier):
     if not v["stable"]:
         seen = {}
         for r in table:
-            k = codec.dumps(r["t"])
+            k = r["tk"]
             if k in seen and seen[k]["h"] != r["h"]:
                 a, b = seen[k], r
                 rep.reject("stable", "Stable", {"property": prop, "clause": "Stable: same structure, different hash",
@@ -258,7 +305,7 @@ def run(prop, tier):
     if not v["sensitive"]:
         seen = {}
         for r in table:
-            k = codec.dumps(r["t"])
+            k = r["tk"]
             if r["h"] in seen and seen[r["h"]][0] != k:
                 a, b = seen[r["h"]][1], r
                 rep.reject("sensitive", "Sensitive", {"property": prop,
